@@ -22,6 +22,12 @@ CLAIMS = {
             "Every history up to depth 5/6 over create/import/delete/export/passphrase changes/lock/unlock/restart called with current, wrong, superseded, public and ill-formed passphrases; success iff the reference says the passphrase is the current private one; in every state all guarded operations are additionally probed with 5 wrong-passphrase classes; while locked no keystore is unlocked, nothing signs and no working secret (master key, crypto key, private scalars, passphrase hash) is in memory; unlocking is all-or-nothing; superseded passphrases stay dead after restart.",
             "a non-zero secret field is a violation only if it is a working secret (DESIGN §C03); scrypt N=16",
             "DESIGN.md §C03"),
+    "C04": ("exploration",
+            "explicit-state BFS over wallet histories on a real directory store with trace logging; exhaustive secret search after every operation",
+            "seqx",
+            "Every history up to depth 4/5 on a real on-disk leveldb store with trace-level logging; after every operation the raw store files, every key/value pair (raw iterator, so compressed tables are covered), every export and all new log bytes are searched for the seed, every extended/child private key on the used paths, the four key-encryption keys of each keystore and all passphrases in 5-6 encodings; every stored/exported blob is trial-decrypted with the keys derivable from the public passphrase alone and its plaintext searched.",
+            "crypto treated as opaque (secretbox/scrypt); OS swap/core dumps and gRPC request logging outside the wallet code are not covered; api.Server.ExportKeystore writes exactly the bytes ExportKeystore returns (by reading)",
+            "DESIGN.md §C04"),
     "C02": ("exploration",
             "explicit-state BFS over wallet operation histories on the real manager+store against a reference model, restart check in every state",
             "seqx",
